@@ -16,6 +16,7 @@ func init() {
 			"PV-CMP comparators are not differences",
 			"no unsafe.String; batch aggregators stateless",
 			"PV-WHOLE SetAttrs visits every attribute whatever the map order; fetchContainers lists anew",
+			"the daemon stream is read with io.ReadFull / io.CopyN only",
 		},
 		NotDecided: []string{"the race detector's dynamic view", "ties in unstable sorts (the property excludes equal timestamps)", "64-bit hash collisions", "map stores inside a region are assumed to hit distinct keys (commutative)"},
 		Rules: func(r *Run) {
@@ -37,6 +38,7 @@ func init() {
 			ruleBatchAggregatorsStateless(r)
 			ruleSetAttrsWhole(r)
 			ruleFetchContainers(r)
+			ruleDaemonLog(r)
 		},
 	})
 }
